@@ -120,8 +120,49 @@ pub fn build(rng: &mut Rng, tier: Tier) -> Option<Built> {
     let mut pp = ProgParams::standard(n_syms, 4096);
     pp.long_bias = rng.chance(1, 6);
     let mut prog = pg.generate(rng, &pp, &mut it);
+    // sometimes: the output ends exactly on a multiple of the window size, with a
+    // chosen kind of last symbol (the window is flushed at that very moment)
+    let mut exact_end = false;
+    if rng.chance(1, 5) {
+        let target = 4096 * rng.range(1, 3) as usize;
+        if !it.hist.is_empty() && it.hist.len() + 2 < target {
+            let last_kind = rng.below(4);
+            let last_len: usize = match last_kind {
+                0 | 1 => 1,
+                _ => rng.range(2, 273) as usize,
+            };
+            while it.hist.len() + last_len < target {
+                let remaining = target - last_len - it.hist.len();
+                let s = if remaining >= 2 && rng.chance(3, 4) {
+                    Sym::Match { dist: rng.range(1, it.hist.len().min(4096) as u64) as u32, len: remaining.min(273).max(2) as u32 }
+                } else {
+                    Sym::Lit(rng.byte())
+                };
+                if let Sym::Match { len, .. } = s {
+                    if len as usize > remaining {
+                        let l = Sym::Lit(rng.byte());
+                        it.step(&l);
+                        prog.push(l);
+                        continue;
+                    }
+                }
+                it.step(&s);
+                prog.push(s);
+            }
+            let last = match last_kind {
+                0 => Sym::Lit(rng.byte()),
+                1 => Sym::ShortRep,
+                2 => Sym::Match { dist: rng.range(1, it.hist.len().min(4096) as u64) as u32, len: last_len as u32 },
+                _ => Sym::Rep { idx: rng.below(4) as u8, len: last_len as u32 },
+            };
+            if it.step(&last) {
+                prog.push(last);
+                exact_end = it.hist.len() == target;
+            }
+        }
+    }
     // often end with a long match so that len-1 falls inside it (overshoot)
-    if !it.hist.is_empty() && rng.chance(1, 2) {
+    if !exact_end && !it.hist.is_empty() && rng.chance(1, 2) {
         let s = Sym::Match {
             dist: rng.range(1, it.hist.len().min(4096) as u64) as u32,
             len: rng.range(2, 273) as u32,
